@@ -381,8 +381,8 @@ def cli_batch(arg):
 
 def run(ctx):
     quick = ctx.tier == "quick"
-    n = 4000 if quick else 200000
-    per = 125 if quick else 2500
+    n = 4000 if quick else 120000
+    per = 125 if quick else 500
     args = [{"seed": ctx.seed, "start": s, "count": min(per, n - s)} for s in range(0, n, per)]
     ncli = 32 if quick else 400
     cargs = [{"seed": ctx.seed, "start": s, "count": 4} for s in range(0, ncli, 4)]
